@@ -15,6 +15,19 @@ package color
 //@   ensures 0 <= ret && ret <= len(s)
 //@   loop 1 invariant 0 <= ret && ret <= rangepos() && rangepos() <= len(s)
 
+// C02: colouring the match groups only ever INSERTS colour codes: the text written apart from the
+// codes (ghost wi_plain) is the prefix of the line up to the last coloured group, and the whole
+// line at the end - so the line with the codes removed is byte-identical to the matched line
+//@ ghost wi_plain(strings.Builder) str
+//@ func WrapIndices
+//@   requires forall k in [0, len(groups)) :: groups[k] <= len(s)
+//@   ghostset at "sb.WriteString(s[lastIndex:start])" : wi_plain(addrof(sb)) := old(wi_plain(addrof(sb))) + s[lastIndex:start]
+//@   ghostset at "sb.WriteString(s[start:end])" : wi_plain(addrof(sb)) := old(wi_plain(addrof(sb))) + s[start:end]
+//@   ghostset at "sb.WriteString(s[lastIndex:])" : wi_plain(addrof(sb)) := old(wi_plain(addrof(sb))) + s[lastIndex:]
+//@   assert at "return sb.String()" : wi_plain(addrof(sb)) == s
+//@   ensures [disabled] !Enabled ==> result == s
+//@   loop 1 invariant 0 <= i && i % 2 == 0 && len(groups) % 2 == 0 && 0 <= lastIndex && lastIndex <= len(s) && wi_plain(addrof(sb)) == s[:lastIndex]
+
 // highlighting one rune of a word builds a new string from a local builder
 //@ func HighlightSingleRune
 //@   pure
